@@ -228,3 +228,62 @@ Definition run_text (cmd : Z) (args : list sexp) : option sexp :=
   | 203, [b] => b <-? g_bytes b ;; Some (s_fres s_filter (from_bytes text_budget b))
   | _, _ => None
   end.
+
+(* ---- schema descriptions: strings are lists of code points *)
+From SV Require Import Schema.Model.
+Definition s_ustr (s : ustr) : sexp := SList (map s_n s).
+Definition g_ustr (s : sexp) : option ustr := g_list g_n s.
+Definition s_ulist := s_list s_ustr.
+Definition g_ulist := g_list g_ustr.
+Definition s_ext (e : list (ustr * list ustr)) : sexp := s_list (s_pair s_ustr s_ulist) e.
+Definition g_ext (s : sexp) : option (list (ustr * list ustr)) :=
+  g_list (fun p => match p with SList [k; v] => k <-? g_ustr k ;; v <-? g_ulist v ;; Some (k, v) | _ => None end) s.
+
+Definition s_oc (o : objclass) : sexp :=
+  SList [s_ustr (oc_oid o); s_ulist (oc_names o); s_opt s_ustr (oc_desc o); s_bool (oc_obsolete o);
+         s_ulist (oc_sup o); s_n (oc_kind o); s_ulist (oc_must o); s_ulist (oc_may o); s_ext (oc_ext o)].
+Definition g_oc (s : sexp) : option objclass :=
+  match s with
+  | SList [a; b; c; d; e; f; g; h; i] =>
+      a <-? g_ustr a ;; b <-? g_ulist b ;; c <-? g_opt g_ustr c ;; d <-? g_bool d ;; e <-? g_ulist e ;;
+      f <-? g_n f ;; g <-? g_ulist g ;; h <-? g_ulist h ;; i <-? g_ext i ;; Some (mkOC a b c d e f g h i)
+  | _ => None
+  end.
+Definition s_at (o : attrtype) : sexp :=
+  SList [s_ustr (at_oid o); s_ulist (at_names o); s_opt s_ustr (at_desc o); s_bool (at_obsolete o);
+         s_opt s_ustr (at_sup o); s_opt s_ustr (at_equality o); s_opt s_ustr (at_ordering o); s_opt s_ustr (at_substr o);
+         s_opt s_ustr (at_syntax o); s_opt SInt (at_syntax_len o); s_bool (at_single o); s_bool (at_collective o);
+         s_bool (at_no_user_mod o); s_n (at_usage o); s_ext (at_ext o)].
+Definition g_at (s : sexp) : option attrtype :=
+  match s with
+  | SList [a; b; c; d; e; f; g; h; i; j; k; l; m; n; o] =>
+      a <-? g_ustr a ;; b <-? g_ulist b ;; c <-? g_opt g_ustr c ;; d <-? g_bool d ;;
+      e <-? g_opt g_ustr e ;; f <-? g_opt g_ustr f ;; g <-? g_opt g_ustr g ;; h <-? g_opt g_ustr h ;;
+      i <-? g_opt g_ustr i ;; j <-? g_opt g_z j ;; k <-? g_bool k ;; l <-? g_bool l ;; m <-? g_bool m ;;
+      n <-? g_n n ;; o <-? g_ext o ;; Some (mkAT a b c d e f g h i j k l m n o)
+  | _ => None
+  end.
+Definition s_dcr (o : ditrule) : sexp :=
+  SList [s_ustr (dc_oid o); s_ulist (dc_names o); s_opt s_ustr (dc_desc o); s_bool (dc_obsolete o);
+         s_ulist (dc_aux o); s_ulist (dc_must o); s_ulist (dc_may o); s_ulist (dc_not o); s_ext (dc_ext o)].
+Definition g_dcr (s : sexp) : option ditrule :=
+  match s with
+  | SList [a; b; c; d; e; f; g; h; i] =>
+      a <-? g_ustr a ;; b <-? g_ulist b ;; c <-? g_opt g_ustr c ;; d <-? g_bool d ;; e <-? g_ulist e ;;
+      f <-? g_ulist f ;; g <-? g_ulist g ;; h <-? g_ulist h ;; i <-? g_ext i ;; Some (mkDCR a b c d e f g h i)
+  | _ => None
+  end.
+
+Definition chain {A} (sa : A -> sexp) (p : res ustr) (parse : ustr -> res A) : sexp :=
+  SList [s_res s_ustr p; match p with Ok t => s_res sa (parse t) | Raise _ => SList [] end].
+
+Definition run_schema (cmd : Z) (args : list sexp) : option sexp :=
+  match cmd, args with
+  | 300, [t] => t <-? g_ustr t ;; Some (s_res s_oc (oc_from_string t))
+  | 301, [t] => t <-? g_ustr t ;; Some (s_res s_at (at_from_string t))
+  | 302, [t] => t <-? g_ustr t ;; Some (s_res s_dcr (dcr_from_string t))
+  | 310, [o] => o <-? g_oc o ;; Some (chain s_oc (oc_print o) oc_from_string)
+  | 311, [o] => o <-? g_at o ;; Some (chain s_at (at_print o) at_from_string)
+  | 312, [o] => o <-? g_dcr o ;; Some (chain s_dcr (dcr_print o) dcr_from_string)
+  | _, _ => None
+  end.
